@@ -366,3 +366,9 @@ def finish(tier, rep: Report):
     if rep.counters.get("premise_failed"):
         fails.append("oracle premise failed on some meshes (mesh.edges != face sides)")
     return fails
+
+
+def dupflag_variant(task, tier):
+    """Tasks that are also run with config.display_duplicate_attribute_warning = True (the runner appends
+    ':duplicate_attribute_flag' to the input class of anything found there)."""
+    return bool(task.get("depth") is None and len(task.get("meshes", [])) > 1)
